@@ -92,7 +92,10 @@ def transitive_callees(body, crates, direction, depth=0, seen=None):
             if cb.raw.get("parent") == body.id:
                 out |= transitive_callees(cb, crates, direction, depth + 1, seen)
     for _, t in body.calls():
-        out.add(callee_res(t))
+        n_ = callee_res(t)
+        if n_.endswith(("::to_be_bytes", "::to_le_bytes")) and t["args"] and "k" in t["args"][0]:
+            continue            # the bytes of a compile-time constant (a sentinel to compare with): not a conversion of data
+        out.add(n_)
         f = t.get("f") or {}
         r = f.get("res") or {}
         if r.get("impl_trait") == ENC and r.get("kind") == "item" and f.get("name") == direction:
